@@ -217,6 +217,29 @@ class SymExec:
                                             list(sv.values()) if isinstance(sv, dict) else list(sv or []))
                                     if v.b in allv:       # a variant the `otherwise` edge stands for
                                         choice = "otherwise"
+                    excluded = ()
+                    if choice is None and cond.k == "discr":
+                        # a second test of the variant of the same call result (`matches!(r, ..)` followed
+                        # by `match r`): the earlier edge taken on this path decides or narrows this one
+                        base = cond.a
+                        while base.k in ("ref", "cast"):
+                            base = base.a if base.k == "ref" else base.b
+                        if base.k == "call" and visits.get(base.a.bb, 0) <= 1:
+                            ex = set()
+                            for c0, v0, o0 in conds:
+                                if c0.k != "discr":
+                                    continue
+                                b0 = c0.a
+                                while b0.k in ("ref", "cast"):
+                                    b0 = b0.a if b0.k == "ref" else b0.b
+                                if b0.k != "call" or b0.a is not base.a:
+                                    continue
+                                if v0 is not None:
+                                    choice = v0 if v0 in vals else "otherwise"
+                                elif o0:
+                                    ex.update(o0)
+                            if choice is None:
+                                excluded = tuple(ex)
                     if choice is not None:
                         tgt = None
                         for v_, b2 in targets:
@@ -227,7 +250,7 @@ class SymExec:
                         bb = tgt
                         continue
                     # fork
-                    succs = [(v_, b2, None) for v_, b2 in targets] + [(None, t["otherwise"], vals)]
+                    succs = [(v_, b2, None) for v_, b2 in targets if v_ not in excluded] + [(None, t["otherwise"], vals)]
                     for v_, b2, others in succs[1:]:
                         stack.append((b2, env, conds + [(cond, v_, others)], calls, blocks, visits, stores))
                     v_, b2, others = succs[0]
